@@ -154,6 +154,69 @@ class Partial(G[T, str], t.Generic[T]):
 '''
 
 
+
+def diamond_checks(rng, out, rounds):
+    """multiple inheritance: every field is the one of the LAST declaration in base-first MRO order (type, default, position)"""
+    import pane
+    tys = [int, float, str, bytes, bool, complex]
+    n = 0
+    for _ in range(rounds):
+        decls = {}
+
+        def mk(name, bases, fields):
+            ann = {nm: ty for nm, (ty, _) in fields.items()}
+            ns = {'__annotations__': ann}
+            for nm, (ty, dflt) in fields.items():
+                ns[nm] = dflt
+            cls = pytypes.new_class(terms.fresh_name(name), bases, {}, lambda d: d.update(ns))
+            terms.KEEP.append(cls)
+            decls[cls] = fields
+            return cls
+
+        def fields_for(names, lvl):
+            out_f = {}
+            for nm in names:
+                ty = rng.choice(tys)
+                out_f[nm] = (ty, {int: lvl, float: lvl + 0.5, str: f's{lvl}', bytes: bytes([65 + lvl]), bool: bool(lvl % 2), complex: complex(lvl, 1)}[ty])
+            return out_f
+        try:
+            A = mk('DA', (pane.PaneBase,), fields_for(rng.sample(NAMES, rng.randint(1, 3)), 0))
+            B = mk('DB', (A,), fields_for(rng.sample(NAMES, rng.randint(0, 2)), 1))
+            C = mk('DC', (A,), fields_for(rng.sample(NAMES, rng.randint(0, 2)), 2))
+            order = rng.choice([(B, C), (C, B)])
+            D = mk('DD', order, fields_for(rng.sample(NAMES, rng.randint(0, 1)), 3))
+            tops = [D]
+            if rng.random() < 0.5:
+                E = mk('DE', (D,), fields_for(rng.sample(NAMES, rng.randint(0, 1)), 4))
+                tops.append(E)
+        except TypeError:
+            continue
+        for top in tops:
+            n += 1
+            want_order, win = [], {}
+            for cls in reversed(top.__mro__):
+                for nm, decl in decls.get(cls, {}).items():
+                    if nm not in win:
+                        want_order.append(nm)
+                    win[nm] = (cls, decl)
+            label = f'{top.__name__}({", ".join(b.__name__ for b in top.__bases__)}) over ' + ' '.join(c.__name__ for c in top.__mro__[1:-3])
+            got = [(f.name, f.type, f.default) for f in top.__pane_info__.fields]
+            if [g[0] for g in got] != want_order:
+                out.violation('C17:diamond:field-order', f'{label}: fields {[g[0] for g in got]}, expected {want_order}', {'classes': label})
+                continue
+            for (nm, ty, dflt) in got:
+                wcls, (wty, wdflt) = win[nm]
+                if ty is not wty or type(dflt) is not type(wdflt) or dflt != wdflt:
+                    out.violation('C17:diamond:wrong-declaration-wins', f'{label}: field {nm} is ({ty.__name__} = {dflt!r}); the last declaration in '
+                                  f'base-first MRO order is {wcls.__name__}\'s ({wty.__name__} = {wdflt!r})', {'classes': label, 'field': nm})
+            x = top()
+            for nm in want_order:
+                wcls, (wty, wdflt) = win[nm]
+                if type(getattr(x, nm)) is not type(wdflt) or getattr(x, nm) != wdflt:
+                    out.violation('C17:diamond:default', f'{label}: {top.__name__}().{nm} = {getattr(x, nm)!r}, expected {wdflt!r}', {'classes': label})
+    return n
+
+
 def generic_checks(out):
     import pane
     ns = {'t': t, 'pane': pane}
@@ -173,6 +236,12 @@ def generic_checks(out):
         ('Swap[int, str]', ns['Swap'][int, str], {'a': str, 'b': t.List[int]}, {'a': 's', 'b': [1]}, [{'a': 1, 'b': [1]}, {'a': 's', 'b': ['x']}]),
         ('Partial[float]', ns['Partial'][float], {'a': float, 'b': t.List[str], 'g': float}, {'a': 1.5, 'b': ['x'], 'g': 2.5}, [{'a': 's', 'b': []}, {'a': 1.0, 'b': [1]}]),
         ('G[int, G[str, int]]', ns['G'][int, ns['G'][str, int]], {'a': int}, {'a': 1, 'b': [{'a': 's', 'b': [1]}]}, [{'a': 1, 'b': [{'a': 1, 'b': [1]}]}]),
+        # a generic re-parameterised with its own type variables in other positions, then bound
+        ('G[U, T][int, str]', ns['G'][ns['U'], ns['T']][int, str], {'a': int, 'b': t.List[str], 'c': t.Dict[str, t.Tuple[int, str]]},
+         {'a': 1, 'b': ['x']}, [{'a': 'x', 'b': []}, {'a': 1, 'b': [2]}]),
+        ('G[U, int][str]', ns['G'][ns['U'], int][str], {'a': str, 'b': t.List[int]}, {'a': 's', 'b': [1]}, [{'a': 1, 'b': [1]}, {'a': 's', 'b': ['x']}]),
+        ('G[T, T][bytes]', ns['G'][ns['T'], ns['T']][bytes], {'a': bytes, 'b': t.List[bytes]}, {'a': b'x', 'b': [b'y']}, [{'a': 'x', 'b': []}, {'a': b'x', 'b': ['y']}]),
+        ('G[V, W][int, str]', ns['G'][ns['V'], ns['W']][int, str], {'a': int, 'b': t.List[str]}, {'a': 1, 'b': ['x']}, [{'a': 'x', 'b': []}]),
     ]
     for label, cls, types, good, bads in table:
         n += 1
@@ -302,6 +371,7 @@ def run(ctx, out):
     out.sample({'levels': [[list(it) for it in its] for _, its, _ in c0], 'fields': [f.name for f in c0[-1][0].__pane_info__.fields],
                 'pos_args': list(c0[-1][0].__pane_info__.pos_args)})
     out.evaluations += generic_checks(out)
+    out.evaluations += diamond_checks(rng, out, 150 if ctx['tier'] == 'quick' else 3000)
     out.evaluations += options_checks(rng, out)
     if any(f in ctx['failed_files'] for f in ('Model/Process.v', 'Run/AgreeProcess.v')):
         out.oblige('corr_process', False, 'model does not build')
